@@ -57,7 +57,8 @@ def module_constants(mod, _depth=0):
 
 
 def template_func(source, name=None, closure=False):
-    tree = ast.parse(source)
+    from .core import normalise_tree
+    tree = normalise_tree(ast.parse(source))
     fns = [n for n in tree.body if isinstance(n, ast.FunctionDef)]
     if name:
         fns = [f for f in fns if f.name == name]
@@ -156,19 +157,43 @@ def _collect(fi, inline_depth=60, keep=()):
     flow = fi.flow
     effects = []
     cands = []
+    _ann = {}
     mut = mutated_locals(fi)
     keep = set(keep) | mut
 
     def inl(e, at):
         if e is None:
             return None
+        at = _ann.get(id(at), at)
         return flow.inline(e, at, depth=inline_depth, stop=keep)
 
+    def terminates(body):
+        if not body:
+            return False
+        last = body[-1]
+        if isinstance(last, (ast.Return, ast.Raise, ast.Continue, ast.Break)):
+            return True
+        if isinstance(last, ast.If) and last.orelse:
+            return terminates(last.body) and terminates(last.orelse)
+        return False
+
     def visit(stmts, ctx):
+        ctx = list(ctx)
         for s in stmts:
+            if isinstance(s, ast.AnnAssign) and s.value is not None:
+                s2 = ast.Assign(targets=[s.target], value=s.value, lineno=s.lineno, col_offset=s.col_offset)
+                s2.end_lineno, s2.end_col_offset = getattr(s, 'end_lineno', s.lineno), getattr(s, 'end_col_offset', 0)
+                _ann[id(s2)] = s
+                s = s2
             if isinstance(s, ast.If):
-                visit(s.body, ctx + [('if', inl(s.test, s.test))])
-                visit(s.orelse, ctx + [('ifnot', inl(s.test, s.test))])
+                t_in = inl(s.test, s.test)
+                visit(s.body, ctx + [('if', t_in)])
+                visit(s.orelse, ctx + [('ifnot', t_in)])
+                # `if c: return ...` followed by the rest  ==  `if c: return ... else: rest`
+                if terminates(s.body) and not terminates(s.orelse):
+                    ctx = ctx + [('ifnot', t_in)]
+                elif s.orelse and terminates(s.orelse) and not terminates(s.body):
+                    ctx = ctx + [('if', t_in)]
             elif isinstance(s, ast.For):
                 c = ('for', copy.deepcopy(s.target), inl(s.iter, s))
                 visit(s.body, ctx + [c])
@@ -372,8 +397,72 @@ def _is_closure_template(fi):
     return bool(getattr(fi, 'closure', False))
 
 
+_SWAP_OPS = {ast.NotEq: ast.Eq, ast.IsNot: ast.Is, ast.NotIn: ast.In, ast.Gt: ast.LtE, ast.GtE: ast.Lt}
+
+
+def canonical_func(fi):
+    """A copy of the function in a canonical control shape: annotated assignments as plain ones; two-armed
+    conditionals with a negated test (`not c`, `!=`, `is not`, `not in`, `>`, `>=`) turned around."""
+    if getattr(fi, '_canonical', None) is not None:
+        return fi._canonical
+    node = copy.deepcopy(fi.node)
+
+    class C(ast.NodeTransformer):
+        def visit_AnnAssign(self, n):
+            self.generic_visit(n)
+            if n.value is None:
+                return n
+            a = ast.Assign(targets=[n.target], value=n.value)
+            return ast.copy_location(a, n)
+
+        def visit_If(self, n):
+            self.generic_visit(n)
+            if n.orelse:
+                t = n.test
+                if isinstance(t, ast.UnaryOp) and isinstance(t.op, ast.Not):
+                    n.test = t.operand
+                    n.body, n.orelse = n.orelse, n.body
+                    return self.visit_If_again(n)
+                if isinstance(t, ast.Compare) and len(t.ops) == 1 and type(t.ops[0]) in _SWAP_OPS:
+                    t.ops = [_SWAP_OPS[type(t.ops[0])]()]
+                    n.body, n.orelse = n.orelse, n.body
+            return n
+
+        def visit_If_again(self, n):
+            t = n.test
+            if isinstance(t, ast.UnaryOp) and isinstance(t.op, ast.Not):
+                n.test = t.operand
+                n.body, n.orelse = n.orelse, n.body
+                return self.visit_If_again(n)
+            if isinstance(t, ast.Compare) and len(t.ops) == 1 and type(t.ops[0]) in _SWAP_OPS:
+                t.ops = [_SWAP_OPS[type(t.ops[0])]()]
+                n.body, n.orelse = n.orelse, n.body
+            return n
+    node = C().visit(node)
+    ast.fix_missing_locations(node)
+    # positions follow the canonical shape (pre-order), the original line is kept for reports
+    counter = [0]
+
+    def number(n):
+        if hasattr(n, 'lineno'):
+            n._orig_lineno = getattr(n, '_orig_lineno', n.lineno)
+            counter[0] += 1
+            n.lineno = counter[0]
+            n.col_offset = 0
+            n.end_lineno = counter[0]
+            n.end_col_offset = 0
+        for c in ast.iter_child_nodes(n):
+            number(c)
+    number(node)
+    new = FuncInfo(fi.module, fi.cls, fi.name, node, fi.qual)
+    new.closure = getattr(fi, 'closure', False)
+    fi._canonical = new
+    return new
+
+
 def effects(fi, keep=(), use_semiring=True):
     """Canonical effect list of a function."""
+    fi = canonical_func(fi)
     effs = _collect(fi, keep=keep)
     params = [p for p in fi.params]
     surviving = set()
@@ -417,8 +506,22 @@ def effects(fi, keep=(), use_semiring=True):
             return None
         t = canon(_comp_rename(x), params, rename, consts)
         return semiring(t) if use_semiring else t
+    NEG = {'Eq': 'NotEq', 'NotEq': 'Eq', 'Lt': 'GtE', 'GtE': 'Lt', 'Gt': 'LtE', 'LtE': 'Gt', 'Is': 'IsNot', 'IsNot': 'Is', 'In': 'NotIn', 'NotIn': 'In'}
+
+    def norm_ctx(c):
+        kind = c[0]
+        if kind in ('if', 'ifnot') and len(c) == 2 and isinstance(c[1], tuple):
+            t = c[1]
+            while t and t[0] == 'unary' and t[1] == 'Not':
+                kind = 'ifnot' if kind == 'if' else 'if'
+                t = t[2]
+            if kind == 'ifnot' and t and t[0] == 'cmp' and len(t[1]) == 1 and t[1][0] in NEG:
+                kind = 'if'
+                t = ('cmp', (NEG[t[1][0]],)) + t[2:]
+            return (kind, t)
+        return c
     for e in effs:
-        ctx = tuple((c[0],) + tuple(cz(x) if isinstance(x, ast.AST) else x for x in c[1:]) for c in e.ctx)
+        ctx = tuple(norm_ctx((c[0],) + tuple(cz(x) if isinstance(x, ast.AST) else x for x in c[1:])) for c in e.ctx)
         kind = e.kind
         if kind.startswith(('bind:', 'aug:')):
             pre, nm = kind.split(':', 1)
@@ -460,16 +563,51 @@ def compare(fi, tmpl, keep=()):
             return out
         sa = [(e, syms(e.key, set())) for e in a]
         sb = [(e, syms(e.key, set())) for e in b]
+        NEGOP = {'Eq': 'NotEq', 'NotEq': 'Eq', 'Lt': 'GtE', 'GtE': 'Lt', 'Gt': 'LtE', 'LtE': 'Gt', 'Is': 'IsNot', 'IsNot': 'Is', 'In': 'NotIn', 'NotIn': 'In'}
+
+        def negates(c1, c2):
+            if c1[0] not in ('if', 'ifnot') or c2[0] not in ('if', 'ifnot'):
+                return False
+            if c1[0] != c2[0] and c1[1:] == c2[1:]:
+                return True
+            t1, t2 = c1[1], c2[1]
+            if c1[0] == c2[0] and isinstance(t1, tuple) and isinstance(t2, tuple) and t1 and t2 and t1[0] == 'cmp' and t2[0] == 'cmp' \
+                    and len(t1[1]) == 1 and NEGOP.get(t1[1][0]) == t2[1][0] and t1[2:] == t2[2:]:
+                return True
+            return False
+
+        def exclusive(e1, e2):
+            c1, c2 = e1.key[1], e2.key[1]
+            for x, y in zip(c1, c2):
+                if x == y:
+                    continue
+                return negates(x, y)
+            return False
         for sym in sorted(set().union(*[s for _, s in sb]) if sb else ()):
             la = [e for e, s in sa if sym in s]
             lb = [e for e, s in sb if sym in s]
-            for ea, eb in zip(la, lb):
-                if ea.key != eb.key:
-                    ea_copy = Effect('order:' + ea.kind, ea.ctx, ea.target, ea.value, ea.node)
-                    ea_copy.key = ea.key
-                    eb_copy = Effect('order:' + eb.kind, eb.ctx, eb.target, eb.value, eb.node)
-                    eb_copy.key = eb.key
-                    return False, [eb_copy], [ea_copy]
+            # match code effects to reference effects (duplicates in order of occurrence)
+            used = set()
+            pos = []
+            for ea in la:
+                j = next((j for j, eb in enumerate(lb) if j not in used and eb.key == ea.key), None)
+                used.add(j)
+                pos.append(j)
+            bad = None
+            for i in range(len(la)):
+                for j in range(i + 1, len(la)):
+                    if pos[i] is not None and pos[j] is not None and pos[i] > pos[j] and not exclusive(la[i], la[j]):
+                        bad = (la[i], lb[pos[j]])
+                        break
+                if bad:
+                    break
+            if bad:
+                ea, eb = bad
+                ea_copy = Effect('order:' + ea.kind, ea.ctx, ea.target, ea.value, ea.node)
+                ea_copy.key = ea.key
+                eb_copy = Effect('order:' + eb.kind, eb.ctx, eb.target, eb.value, eb.node)
+                eb_copy.key = eb.key
+                return False, [eb_copy], [ea_copy]
     return (not extra and not missing), missing, extra
 
 
